@@ -24,7 +24,7 @@ from typing import Any, Iterable
 VERIF = Path(__file__).resolve().parent.parent
 REPO = Path(os.environ.get('DASHLIVE_REPO', '/repo'))
 SPEC = VERIF / 'spec'
-EVIDENCE = VERIF / 'evidence'
+EVIDENCE = Path(os.environ.get('VERIF_EVIDENCE_DIR') or (VERIF / 'evidence'))
 REPLAY = EVIDENCE / 'replay'
 TLA_JAR = '/opt/veriftools/tla/tla2tools.jar'
 TLA_CP = f'{TLA_JAR}:/opt/veriftools/tla/CommunityModules-deps.jar'
@@ -318,7 +318,7 @@ class Outcome:
                 path = REPLAY / f'{self.prop}-{clause}.json'
                 with path.open('w') as f:
                     json.dump({'property': self.prop, 'clause': clause, 'count': len(vs),
-                               'cases': [x.record() for x in vs[:20]]}, f, indent=1, default=str)
+                               'cases': [x.record() for x in vs[:int(os.environ.get('VERIF_REPLAY_CAP', '20'))]]}, f, indent=1, default=str)
                 print(f'VIOLATION property={self.prop} replay={path}')
                 print(f'  clause={clause} cases={len(vs)} first={json.dumps(vs[0].case, default=str)[:600]}')
             code = 1
